@@ -220,6 +220,8 @@ class Loader(importlib.abc.MetaPathFinder, importlib.abc.Loader):
         self.hashes = {}
         self.rewrites = {}
         self.entered = set()
+        self.lines = set()       # (module, lineno) executed inside twin modules (symbolic runs only)
+        self._lines_sent = set()
         self.substituted = {}
         self.np = npx.NPX()
         from . import pdx
@@ -256,7 +258,9 @@ class Loader(importlib.abc.MetaPathFinder, importlib.abc.Loader):
         self.rewrites[short] = dict(rw.n)
         module.__dict__["__sx__"] = SXHelpers
         module.__file__ = str(f)
-        exec(compile(tree, str(f), "exec"), module.__dict__)
+        # "/./" marks code objects of the symbolically loaded twins (same file for linecache / tracebacks; the plain
+        # package imported by the concrete runs has the path without it)
+        exec(compile(tree, str(f.parent) + "/./" + f.name, "exec"), module.__dict__)
         self._substitute(short, module)
 
     def _substitute(self, short, module):
@@ -309,8 +313,20 @@ class Loader(importlib.abc.MetaPathFinder, importlib.abc.Loader):
                 self.entered.add("%s:%s" % (os.path.basename(fn)[:-3], code.co_qualname))
             return mon.DISABLE
 
+        def on_line(code, line):
+            fn = code.co_filename
+            if "/./" in fn and fn.startswith(prefix):
+                self.lines.add((os.path.basename(fn)[:-3], line))
+            return mon.DISABLE
+
         mon.register_callback(tid, mon.events.PY_START, on_start)
-        mon.set_events(tid, mon.events.PY_START)
+        mon.register_callback(tid, mon.events.LINE, on_line)
+        mon.set_events(tid, mon.events.PY_START | mon.events.LINE)
+
+    def new_lines(self):
+        d = self.lines - self._lines_sent
+        self._lines_sent |= d
+        return sorted(d)
 
     def reset_for_path(self):
         from . import fs
